@@ -100,7 +100,7 @@ script_verify_flags FixFlags(script_verify_flags f)
 
 } // namespace
 
-VERIF_TARGET(c13_checkinputs, init13, 96, 900,
+VERIF_TARGET(c13_checkinputs, init13, 200, 2400,
              "a world of 5-9 coins (P2PKH, P2WPKH, P2SH-P2WPKH, P2TR key path, P2PK, bare CLTV/CSV anyone-can-spend, P2WSH 2-of-2 multisig, bare 1-of-1 multisig, P2WSH OP_TRUE) and "
              "3-5 base transactions spending 1-3 of them, each with defect variants (corrupted signature = witness twin for segwit inputs, lax-DER signature, undefined hash type, "
              "unsatisfied CLTV/CSV, non-null multisig dummy, repeated multisig signature, extra scriptSig push / NOP, extra witness item); 40-160 CheckInputScripts calls on ONE "
